@@ -35,6 +35,8 @@ claimed = {
              note="Known finding C02-F1 (3' partial written as a..b>, pinned by TestGbkLocationStringBuilder) is scoped to the syntax clause of trees with a 3' partial end. The tree shape is enumerated (forked); the solver covers the parent sequence."),
  "C10": dict(design="5/C10", text="Designed layouts (4 enzymes incl. a custom 3-letter site, 0..2 / 0..4 sites in either orientation and case, boundary gaps, sites at the very ends of linear parts) with all filler bases symbolic over {A,T,a,t}: CutWithEnzyme / CutWithEnzymeByName from SSA (regexp through the symbolic matcher) must return exactly the fragments an independent geometry oracle computes, for EVERY rotation of circular parts, without panicking.",
              note="Precondition assumed as stated in the evidence (disjoint sites / overhang windows, cuts >= 2 overhangs apart). Layout structure is enumerated; the solver covers the filler bases (site detection is decided by domain tables because the filler cannot form a site)."),
+ "C14": dict(design="5/C14", text="gff.Build then gff.Parse from SSA on structured sequences whose letters and field texts are symbolic: region name/bounds, the full sequence across the 70-column wrap (lengths around every wrap boundary; every length 1..212 in thorough), the nine columns, attributes and the 1-based/0-based coordinate conversion are preserved, and a parsed feature's GetSequence is bases start..end; no panic.",
+             note="Preconditions as listed in the evidence (non-empty region name, RegionStart 1, RegionEnd = length, version set, >= 1 attribute). The independent-writer clause is covered only by the repository's excerpt as a translator-validation vector."),
 }
 
 na_reason = {}
